@@ -39,6 +39,7 @@ deriving DecidableEq, Repr, Inhabited
 structure Mem where
   nextTxid : Nat := 1
   pm : Meta := {}                 -- `Pager.meta`
+  bm : Nat := 2                   -- `Pager.bitmap`: data pages 2 … bm-1 are marked allocated
   idLen : Nat := 0                -- `IdMap.i2e_len` (= next internal id)
   idStart : Nat := 0              -- `IdMap.i2e_start`
   exts : List Nat := []           -- `IdMap.i2e` / `e2i` (nodes visible to lookups)
@@ -80,6 +81,7 @@ def Step.label : Step → String
 inductive MemUpd where
   | bumpTxid                              -- `next_txid.fetch_add(1)`
   | setPm (m : Meta)                      -- `Pager.meta` := m
+  | setBm (b : Nat)                       -- `Pager.bitmap.set_allocated`
   | setIdStart (p : Nat)                  -- `IdMap.i2e_start`
   | incIdLen                              -- `IdMap.i2e_len += 1`
   | pushExt (x : Nat)                     -- `e2i.insert`, `i2l.push`, `i2e.push`
@@ -95,6 +97,7 @@ deriving Repr, Inhabited
 def applyUpd (m : Mem) : MemUpd → Mem
   | .bumpTxid => { m with nextTxid := m.nextTxid + 1 }
   | .setPm pm => { m with pm := pm }
+  | .setBm b => { m with bm := b }
   | .setIdStart p => { m with idStart := p }
   | .incIdLen => { m with idLen := m.idLen + 1 }
   | .pushExt x => { m with exts := m.exts ++ [x] }
@@ -174,29 +177,35 @@ def FS.crash (fs : FS) (m : CrashMode) : FS :=
 /-! ## building blocks (each mirrors one function of the code; the small scratch records carry
     what later steps of the same operation depend on) -/
 
-/-- pager scratch: `Pager.meta` and the file length in pages -/
+/-- pager scratch: `Pager.meta`, the file length in pages, and the allocation bitmap (no page is
+    ever freed on these paths, so the allocated data pages are `2 … bm-1`) -/
 structure PS where
   pm : Meta
   len : Nat
+  bm : Nat := 2
 deriving Repr, Inhabited
 
 /-- `Pager::flush_meta_and_bitmap` -/
-def flushA (pm : Meta) : List Action :=
-  [ioA (.pg (.hdr pm) 0), ioA (.pg .bitmap 1), ioA .ps]
+def flushA (pm : Meta) (bm : Nat) : List Action :=
+  [ioA (.pg (.hdr pm) 0), ioA (.pg (.bitmap bm) 1), ioA .ps]
 
 /-- `Pager::ensure_allocated(pid)` for a data page -/
 def ensureA (ps : PS) (pid : Nat) : List Action × PS :=
   let grow := ps.pm.nextPage ≤ pid
   let pm := if grow then { ps.pm with nextPage := pid + 1 } else ps.pm
   let a1 := if grow then [memA (.setPm pm)] else []
+  let bm := if pid < ps.bm then ps.bm else pid + 1
   let ext := ps.len < pid + 1
   let a2 := if ext then [ioA (.pg (.setLen (pid + 1)) (pid + 1))] else []
-  (a1 ++ a2 ++ flushA pm, { pm := pm, len := if ext then pid + 1 else ps.len })
+  (a1 ++ [memA (.setBm bm)] ++ a2 ++ flushA pm bm, { pm := pm, len := if ext then pid + 1 else ps.len, bm := bm })
 
-/-- `Pager::allocate_page` (no page is ever freed on these paths: the candidate is `next_page_id`) -/
+/-- `Pager::allocate_page`: the first page below `next_page_id` that the bitmap does not mark
+    (there is one only after a power loss that kept a meta page write and lost the bitmap write
+    of the same flush), else `next_page_id` -/
 def allocA (ps : PS) : List Action × PS × Nat :=
-  let pid := ps.pm.nextPage
-  let pm := { ps.pm with nextPage := pid + 1 }
+  let hole := ps.bm < ps.pm.nextPage
+  let pid := if hole then ps.bm else ps.pm.nextPage
+  let pm := if hole then ps.pm else { ps.pm with nextPage := pid + 1 }
   let r := ensureA { ps with pm := pm } pid
   (memA (.setPm pm) :: r.1, r.2, pid)
 
@@ -237,7 +246,7 @@ def startA (ps : PS) (id : IdSt) : List Action × PS × Nat :=
   if id.start = 0 then
     let r := allocA ps
     let pm := { r.2.1.pm with i2eStart := r.2.2 }
-    (r.1 ++ [memA (.setPm pm)] ++ flushA pm ++ [memA (.setIdStart r.2.2)], { r.2.1 with pm := pm }, r.2.2)
+    (r.1 ++ [memA (.setPm pm)] ++ flushA pm r.2.1.bm ++ [memA (.setIdStart r.2.2)], { r.2.1 with pm := pm }, r.2.2)
   else ([], ps, id.start)
 
 /-- `IdMap::apply_create_node_multi_label` for the next internal id (`iid = i2e_len`; the density
@@ -248,7 +257,7 @@ def nodeA (cfg : Cfg) (ps : PS) (id : IdSt) (ext : Nat) : List Action × PS × I
   let pm1 := { r1.2.pm with i2eLen := id.len + 1 }
   let pm2 := { pm1 with nextInt := id.len + 1 }
   (r0.1 ++ r1.1 ++ [ioA (.pg (.slot id.len ext) r0.2.2)] ++ (if cfg.syncSlot then [ioA .ps] else [])
-      ++ [memA .incIdLen, memA (.setPm pm1)] ++ flushA pm1 ++ [memA (.setPm pm2)] ++ flushA pm2
+      ++ [memA .incIdLen, memA (.setPm pm1)] ++ flushA pm1 r1.2.bm ++ [memA (.setPm pm2)] ++ flushA pm2 r1.2.bm
       ++ [memA (.pushExt ext)],
    { r1.2 with pm := pm2 }, { start := r0.2.2, len := id.len + 1 })
 
@@ -268,7 +277,7 @@ def nodeRecs : Nat → List Nat → List Rec
 def txRecs (txid base : Nat) (tx : Tx) : List Rec :=
   [.begin txid] ++ nodeRecs base tx.nodes ++ tx.edges.map .edge ++ tx.props.map .prop ++ [.commit txid]
 
-def Mem.ps (m : Mem) (vol : PImg) : PS := { pm := m.pm, len := vol.len }
+def Mem.ps (m : Mem) (vol : PImg) : PS := { pm := m.pm, len := vol.len, bm := m.bm }
 def Mem.ws (m : Mem) (w : List Frag) : WS :=
   { isOpen := m.walOpen, checked := m.tailChecked, len := w.length, valid := validLen w }
 
@@ -451,10 +460,11 @@ def mkIndexA (cfg : Cfg) (ps : PS) (catRoot : Nat) (entries : List Nat) (i : Nat
   if i < entries.length then ([], ps, entries) else
   let id := if ps.pm.nextIdx = 0 then 1 else ps.pm.nextIdx
   let pm := { ps.pm with nextIdx := id + 1 }
+  let bm0 := ps.bm
   let (a1, ps, r) := allocA { ps with pm := pm }
   let sync : List Action := if cfg.syncCreate then [ioA .ps] else []
   let entries := entries ++ [r]
-  ([memA (.setPm pm)] ++ flushA pm ++ a1 ++ [ioA (.pg (.idxRoot r) r)] ++ sync
+  ([memA (.setPm pm)] ++ flushA pm bm0 ++ a1 ++ [ioA (.pg (.idxRoot r) r)] ++ sync
      ++ [memA (.catalog catRoot entries), ioA (.pg (.cat entries) catRoot)] ++ sync,
    ps, entries)
 
@@ -476,20 +486,20 @@ def bootA (cfg : Cfg) (vol : PImg) : Except (List Action × Err) BootRes :=
   if !fresh && !vol.hdr.init then .error ([], .io) else
   let pm0 : Meta := if fresh then { init := true } else vol.hdr
   let a0 : List Action :=
-    if fresh then [memA (.setPm pm0), ioA (.pg (.setLen 2) 2)] ++ flushA pm0 else [memA (.setPm pm0)]
-  let ps : PS := { pm := pm0, len := if fresh then max vol.len 2 else vol.len }
+    if fresh then [memA (.setPm pm0), ioA (.pg (.setLen 2) 2)] ++ flushA pm0 2 else [memA (.setPm pm0)]
+  let ps : PS := { pm := pm0, len := if fresh then max vol.len 2 else vol.len, bm := if fresh then 2 else vol.bm }
   -- IdMap::load
   let st := pm0.i2eStart
   let n := if st = 0 then 0 else pm0.i2eLen
   let exts0 := (List.range n).map (getSlot vol.i2e)
-  let m0 : Mem := { pm := pm0, idStart := st, idLen := pm0.i2eLen, exts := exts0 }
+  let m0 : Mem := { pm := pm0, bm := ps.bm, idStart := st, idLen := pm0.i2eLen, exts := exts0 }
   -- IndexCatalog::open_or_create
   let catStep : Except Err (List Action × PS × Nat × List Nat) :=
     if pm0.catRoot = 0 then
       let (a, ps, c) := allocA ps
       let sync : List Action := if cfg.syncCreate then [ioA .ps] else []
       let pm := { ps.pm with catRoot := c }
-      .ok (a ++ [ioA (.pg (.cat []) c)] ++ sync ++ [memA (.setPm pm)] ++ flushA pm ++ [memA (.catalog c [])],
+      .ok (a ++ [ioA (.pg (.cat []) c)] ++ sync ++ [memA (.setPm pm)] ++ flushA pm ps.bm ++ [memA (.catalog c [])],
            { ps with pm := pm }, c, [])
     else
       match vol.cat with
@@ -517,7 +527,7 @@ def replayA (cfg : Cfg) (vol : PImg) (w : List Frag) (b : BootRes) : List Action
     let segs := sc.segs.map (fun k => (k, vol.segs.find? (fun s => s.key == k && s.complete)))
     if segs.any (fun s => s.2.isNone) then [.fail .segMissing] else
     let m1 : Mem := { b.m0 with
-      pm := b.ps.pm, catRootM := b.catRoot, catEntries := b.entries,
+      pm := b.ps.pm, bm := b.ps.bm, catRootM := b.catRoot, catEntries := b.entries,
       segs := segs.map (fun s => (s.1, (s.2.map (·.edges)).getD [])),
       epoch := sc.epoch, ckpt := sc.ckpt, proot := sc.proot, ptop := sc.ptop,
       nextTxid := max (sc.maxTxid + 1) 1 }
